@@ -1615,10 +1615,12 @@ def _merge_records(repo):
     def rec(key, node, order=None, complete=None):
         recs.append({'key': fkey(fi, key), 'order': order, 'complete': complete, 'node': node})
 
-    def values_of(name):
+    def values_of(name, augmented=True):
         """Value expressions bound to a local (positions of a tuple display unpacked); None where not followable."""
         out = []
         for st_, v, idx in assigned_value(fi.node, name):
+            if isinstance(st_, ast.AugAssign) and not augmented:
+                continue
             if idx is None and isinstance(st_, ast.Assign):
                 out.append(v)
             elif isinstance(idx, int) and isinstance(st_, ast.Assign) and isinstance(v, (ast.Tuple, ast.List)) and idx < len(v.elts) \
@@ -1687,8 +1689,8 @@ def _merge_records(repo):
         M = rv.id
         cfg = cfg_of(fi)
         names = aliases_of(M)
-        init_vals = values_of(M)
-        init_st = [st_ for st_, v, idx in assigned_value(fi.node, M)]
+        init_vals = values_of(M, augmented=False)      # (augmented assignments are judged as mutations below)
+        init_st = [st_ for st_, v, idx in assigned_value(fi.node, M) if not isinstance(st_, ast.AugAssign)]
         ok = len(init_vals) == 1 and init_vals[0] is not None and copy_of(init_vals[0], P_NEW) and not isinstance(init_vals[0], ast.Name) and \
             not (isinstance(init_vals[0], ast.Call) and call_name(init_vals[0]) in ('tuple', 'iter'))      # a fresh *list*
         d = ('the merged list starts as a copy of the new (outer) list, in order' if ok else
@@ -1740,9 +1742,18 @@ def _merge_records(repo):
             cs = ncs(cs)
             return has_cond(cs, is_dup_text, True) or (has_cond(cs, is_unique, True) and has_cond(cs, is_member, True))
 
+        def neg_part(t):
+            """``t`` says "not unique" or "not in the merged list"."""
+            if isinstance(t, ast.UnaryOp) and isinstance(t.op, ast.Not):
+                return is_unique(t.operand) or is_member(t.operand)
+            return isinstance(t, ast.Compare) and len(t.ops) == 1 and isinstance(t.ops[0], ast.NotIn) and \
+                is_member(ast.Compare(left=t.left, ops=[ast.In()], comparators=t.comparators))
+        is_not_dup_text = lambda t: isinstance(t, ast.BoolOp) and isinstance(t.op, ast.Or) and all(neg_part(v) for v in t.values)
+
         def dup_refuted(cs):
             cs = ncs(cs)
-            return has_cond(cs, is_dup_text, False) or has_cond(cs, is_unique, False) or has_cond(cs, is_member, False)
+            return has_cond(cs, is_dup_text, False) or has_cond(cs, is_unique, False) or has_cond(cs, is_member, False) or \
+                has_cond(cs, is_not_dup_text, True)
         ok = len(app_sites) == 1
         if ok:
             ok = dup_refuted(conds(fi, app_sites[0]))
